@@ -39,8 +39,8 @@ extern "C" void h_any(void)
 	vp_reach(1);
 }
 
-static const char* const TOK[] = { "<a", "<b", ">", "/>", "</a>", "</b>", "</>", " b=\"", " c='", "\"", "'", "x", " ", "&amp;", "&#x41;", "&#65;", "&#;", "&q;", "&", "<!--", "--", "-->", "<?p ?>", "<?xml?>", "<!D[", "]>", "<" };
-#define NTOK 27
+static const char* const TOK[] = { "<a", "<b", ">", "/>", "</a>", "</b>", "</>", " b=\"", " c='", "\"", "'", "x", " ", "&amp;", "&#x41;", "&#65;", "&#;", "&q;", "&", "<!--", "--", "-->", "<?p ?>", "<?xml?>", "<!D[", "]>", "<", "<?xml v" };
+#define NTOK 28
 // p0 = tokens, p1 = splice a symbolic byte, p2 = alphabet size
 extern "C" void h_tokens(void)
 {
